@@ -544,6 +544,8 @@ class ExprMixin:
   # ---- comprehensions over concrete iterables ---------------------------------------------
   def iter_concrete(self, v):
     v = self.unopt(v)
+    if isinstance(v, VLazy):
+      return list(v.force())
     if isinstance(v, (VTuple, VList, VVec)):
       return list(v.items)
     if isinstance(v, VDict):
@@ -579,8 +581,11 @@ class ExprMixin:
       src = self.unopt(src)
       if isinstance(src, VIter):
         return VGen(src, node.generators[0].target, node.elt, env)
-      return VList(self._comp(node, env, src))
-    return VList(self._comp(node, env))
+      # over a concrete collection: the iterable is evaluated now, the elements (and their effects) on consumption
+      return VLazy(lambda _n=node, _e=env, _s=src: self._comp(_n, _e, _s))
+    if self.spec_mode:
+      return VList(self._comp(node, env))
+    return VLazy(lambda _n=node, _e=env: self._comp(_n, _e))
 
   def filtered_gen(self, src, gen, elt, env):
     """(elt for target in it if cond) over a fault-free ghost iterator, summarised (A2: comprehension semantics): the
